@@ -6,3 +6,5 @@ cd "$(dirname "$0")"
 export CARGO_NET_OFFLINE=true
 (cd harness && cargo build --offline --quiet)
 (cd lean && lake build)
+# E2: dependencies and binaries of the compile-and-run probes (probes/), against /repo's working tree
+python3 tools/probes.py build > /dev/null 2>&1 || true
